@@ -12,8 +12,9 @@
  * L0: the compression function reached through hash_ctx->fn_sha256_compression is an arbitrary
  * function of (state, blocks): it may write s[0..7] only, it is handed readable memory
  * blocks[0 .. 64 n), and it LOGS what it was handed:
- *   - g_c_calls / g_c_blocks: number of calls / of 64-byte blocks so far (blocks are numbered
- *     consecutively over all calls: call c with n blocks covers block numbers [g_c_blocks, g_c_blocks+n));
+ *   - g_c_calls / g_c_blocks: number of calls / block counter (blocks are numbered consecutively over
+ *     all calls: a call with n blocks covers block numbers [g_c_blocks, g_c_blocks+n); harnesses start
+ *     the counter at bytes/64 of the hash object so that block numbers are absolute stream block indices);
  *   - for the WATCHED (block number g_cw_blk, byte offset g_cw_off) - selectors the harness leaves
  *     unconstrained and nothing assigns - the byte at that position, the index of the delivering call
  *     and how often the block number was delivered;
@@ -64,40 +65,98 @@ static void verif_compress(uint32_t *s, const unsigned char *blocks, size_t n) {
 }
 
 /* ---- L2 STREAM CONTRACT of secp256k1_sha256_write in terms of the compression log ---------------------
- * With B0 = old bytes, B1 = B0 + len, R0 = B0%64, NB = B1/64 - B0/64, J = g_cw_blk - old(g_c_blocks)
- * (number of the watched block relative to this call), o = g_cw_off and, for a block number j of this
- * call, stream(j, o) = old buf[o] if 64 j + o < R0, else data[64 j + o - R0]  (the stream byte at absolute
- * position 64 (B0/64 + j) + o, written relative to data[0] so that no 2^64-sized sums occur):
- *   (a) bytes' = B1                       (b) g_c_blocks' = g_c_blocks + NB; the watched block is delivered
- *   exactly once iff 0 <= J < NB, with byte stream(J, o)   (c) o < B1%64  ==>  buf'[o] = stream(NB, o)
- *   (d) state word g_sk: unchanged if no compression call happened, else the oracle's last output.
- * ENFORCED on the real code in C05.sha256_write (--enforce-contract), REPLACES the call in the lemma
- * harnesses (split lemma, finalize).  g_cw_off doubles as the watched buf offset of (c). */
+ * Block numbers are ABSOLUTE: the harness starts the log with g_c_blocks = bytes/64, so block number b of
+ * the log is the b-th 64-byte block of the stream the object has absorbed, and the watch (g_cw_blk,
+ * g_cw_off) is the absolute stream position WP = 64 g_cw_blk + g_cw_off.  Invariant (pre and post):
+ * g_c_blocks == hash->bytes / 64.  With B0 = old bytes, B1 = B0 + len, o = g_cw_off and
+ * stream(p) = old buf[p%64] for p < B0, data[p - B0] for p >= B0:
+ *   (a) bytes' = B1;
+ *   (b) the blocks B0/64 .. B1/64 - 1 and no others are handed to the compression function, each once, in
+ *       order (g_c_blocks' = B1/64; the watched block is hit exactly once iff B0/64 <= g_cw_blk < B1/64),
+ *       and the byte delivered at WP is stream(WP);
+ *   (c) o < B1%64  ==>  buf'[o] = stream(64 (B1/64) + o);
+ *   (d) state word g_sk: unchanged if no compression call happened, else the oracle's last output;
+ *       an empty write changes nothing.
+ * ENFORCED on the real code in C05.sha256_write_contract (--enforce-contract), REPLACES the call in the
+ * lemma harnesses (split lemma, finalize).  g_cw_off doubles as the watched buf offset of (c). */
 #ifdef HASH_SPEC_WRITE_CONTRACT
 unsigned g_sk;   /* ghost selector of a state word, < 8 */
 #define W_B0 __CPROVER_old(hash->bytes)
 #define W_B1 (W_B0 + len)
-#define W_R0 (W_B0 % 64)
-#define W_NB (W_B1 / 64 - W_B0 / 64)
-#define W_J (g_cw_blk - __CPROVER_old(g_c_blocks))
-/* position of (block J, offset o) relative to data[0]: 64 J + o - R0  (= P - B0); before data iff 64 J + o < R0 */
-#define W_STREAM(J_) ((J_) * 64 + g_cw_off < W_R0 ? __CPROVER_old(hash->buf[g_cw_off]) : data[(J_) * 64 + g_cw_off - W_R0])
+#define W_WP (g_cw_blk * 64 + g_cw_off)
+#define W_STREAM(p) ((p) < W_B0 ? __CPROVER_old(hash->buf[g_cw_off]) : data[(p) - W_B0])
 static void secp256k1_sha256_write(const secp256k1_hash_ctx *hash_ctx, secp256k1_sha256 *hash, const unsigned char *data, size_t len)
 __CPROVER_requires(__CPROVER_rw_ok(hash, sizeof(*hash)) && (len == 0 || __CPROVER_r_ok(data, len)) && __CPROVER_r_ok(hash_ctx, sizeof(*hash_ctx)))
 __CPROVER_requires(hash_ctx->fn_sha256_compression == verif_compress)
 __CPROVER_requires(hash->bytes <= UINT64_MAX - len)                                     /* the function's own precondition (VERIFY_CHECK) */
-__CPROVER_requires(g_cw_off < 64 && g_sk < 8 && g_c_blocks <= (UINT64_MAX >> 2) && len <= ((size_t)1 << 60) && g_cw_hit >= 0 && g_cw_hit < 1000 && g_c_calls < 1000)
+__CPROVER_requires(g_c_blocks == hash->bytes / 64)
+__CPROVER_requires(g_cw_off < 64 && g_sk < 8 && g_cw_blk <= (UINT64_MAX >> 6) && g_cw_hit >= 0 && g_cw_hit < 1000 && g_c_calls < 1000)
 __CPROVER_assigns(*hash, g_c_calls, g_c_blocks, g_cw_hit, g_cw_byte, g_cw_call, g_c_state, g_c_ptr, g_c_n, g_c_out, g_c_bad, g_mc_calls)
 __CPROVER_ensures(hash->bytes == W_B1)
-__CPROVER_ensures(g_c_blocks == __CPROVER_old(g_c_blocks) + W_NB)
-__CPROVER_ensures((g_cw_blk >= __CPROVER_old(g_c_blocks) && W_J < W_NB)
-    ? (g_cw_hit == __CPROVER_old(g_cw_hit) + 1 && g_cw_byte == W_STREAM(W_J))
+__CPROVER_ensures(g_c_blocks == W_B1 / 64)
+__CPROVER_ensures((W_B0 / 64 <= g_cw_blk && g_cw_blk < W_B1 / 64)
+    ? (g_cw_hit == __CPROVER_old(g_cw_hit) + 1 && g_cw_byte == W_STREAM(W_WP))
     : (g_cw_hit == __CPROVER_old(g_cw_hit) && g_cw_byte == __CPROVER_old(g_cw_byte)))
-__CPROVER_ensures(g_cw_off < W_B1 % 64 ==> hash->buf[g_cw_off] == W_STREAM(W_NB))
-__CPROVER_ensures(W_NB * 64 + W_B1 % 64 == W_R0 + len)                                  /* arithmetic fact, handed to consumers as a lemma */
+__CPROVER_ensures(g_cw_off < W_B1 % 64 ==> hash->buf[g_cw_off] == W_STREAM((W_B1 / 64) * 64 + g_cw_off))
 __CPROVER_ensures(g_c_calls >= __CPROVER_old(g_c_calls) && g_c_calls <= __CPROVER_old(g_c_calls) + 2 && g_c_bad == __CPROVER_old(g_c_bad))
 __CPROVER_ensures(hash->s[g_sk] == (g_c_calls == __CPROVER_old(g_c_calls) ? __CPROVER_old(hash->s[g_sk]) : g_c_out[g_sk]))
 __CPROVER_ensures(len == 0 ==> (hash->buf[g_cw_off] == __CPROVER_old(hash->buf[g_cw_off]) && g_c_calls == __CPROVER_old(g_c_calls)))
+;
+#endif
+
+/* ---- L3 STREAM CONTRACTS of secp256k1_sha256_write / _finalize with a ghost write log -----------------
+ * Same idea as hash_log.h (a hash object = the byte stream written into it, position = the object's own
+ * counter hash->bytes, epoch = number of finalize calls executed so far), extended for code that runs
+ * SEVERAL hash objects at once (HMAC inner/outer) and feeds digests back into hashes:
+ *   selectors (fixed by the harness, assigned by nothing): g_swe epoch, g_swobj object (NULL = any),
+ *     g_swpos stream position, g_sdk digest byte index (< 32);
+ *   write log:  for a write in epoch g_swe to object g_swobj covering position g_swpos: hit count and the
+ *     byte; for a write at position 0 (stream start) in that epoch/object: count and whether the state
+ *     words were the SHA-256 initial value;
+ *   finalize log, slots 0..3 by finalize index: object, stream length (old bytes), digest byte at g_sdk.
+ * The digest itself is unconstrained (the contracts say nothing about SHA-256 values); frames:
+ * write assigns *hash, finalize assigns *hash and out32[0..32).  Justified by the L2 units: frame and
+ * bytes' = bytes + len (C05.sha256_write_contract), digest = function of (start state, stream) under the
+ * compression oracle (stream lemma + padding lemma). */
+#ifdef HASH_SPEC_STREAM_CONTRACTS
+int g_sfin_n; int g_swe; const secp256k1_sha256 *g_swobj; uint64_t g_swpos; unsigned g_sdk;
+int g_sw_hit; unsigned char g_sw_byte; int g_sw_started, g_sw_iv;
+/* object identity as an integer (object number, offset): DFCC havocs POINTER-typed assigns targets of a
+ * replaced contract to one fixed "invalid pointer" symbol per variable, so a pointer-typed ghost that two
+ * calls constrain differently makes everything after the second call unreachable (caught by REACH). */
+#define SHAS_ID(p) (((uint64_t)__CPROVER_POINTER_OBJECT(p) << 52) | (uint64_t)__CPROVER_POINTER_OFFSET(p))
+uint64_t g_sf_obj0, g_sf_obj1, g_sf_obj2, g_sf_obj3;
+uint64_t g_sf_end0, g_sf_end1, g_sf_end2, g_sf_end3;
+unsigned char g_sf_byte0, g_sf_byte1, g_sf_byte2, g_sf_byte3;
+#define SHAS_RESET() do { g_sfin_n = 0; g_sw_hit = 0; g_sw_byte = 0; g_sw_started = 0; g_sw_iv = 0; \
+    g_sf_obj0 = g_sf_obj1 = g_sf_obj2 = g_sf_obj3 = 0; g_sf_end0 = g_sf_end1 = g_sf_end2 = g_sf_end3 = 0; \
+    g_sf_byte0 = g_sf_byte1 = g_sf_byte2 = g_sf_byte3 = 0; } while (0)
+#define SHAS_SEL (g_sfin_n == g_swe && (g_swobj == NULL || g_swobj == hash))
+#define SHAS_OLD_IS_IV(h) (__CPROVER_old((h)->s[0]) == 0x6a09e667ul && __CPROVER_old((h)->s[1]) == 0xbb67ae85ul && __CPROVER_old((h)->s[2]) == 0x3c6ef372ul && __CPROVER_old((h)->s[3]) == 0xa54ff53aul && \
+                           __CPROVER_old((h)->s[4]) == 0x510e527ful && __CPROVER_old((h)->s[5]) == 0x9b05688cul && __CPROVER_old((h)->s[6]) == 0x1f83d9abul && __CPROVER_old((h)->s[7]) == 0x5be0cd19ul)
+static void secp256k1_sha256_write(const secp256k1_hash_ctx *hash_ctx, secp256k1_sha256 *hash, const unsigned char *data, size_t len)
+__CPROVER_requires(__CPROVER_rw_ok(hash, sizeof(*hash)) && (len == 0 || __CPROVER_r_ok(data, len)) && hash_ctx != NULL)
+__CPROVER_requires(hash->bytes <= UINT64_MAX - len)
+__CPROVER_requires(g_sw_hit >= 0 && g_sw_hit < 1000 && g_sw_started >= 0 && g_sw_started < 1000)
+__CPROVER_assigns(*hash, g_sw_hit, g_sw_byte, g_sw_started, g_sw_iv)
+__CPROVER_ensures(hash->bytes == __CPROVER_old(hash->bytes) + len)
+__CPROVER_ensures((SHAS_SEL && __CPROVER_old(hash->bytes) == 0)
+    ? (g_sw_started == __CPROVER_old(g_sw_started) + 1 && g_sw_iv == SHAS_OLD_IS_IV(hash))
+    : (g_sw_started == __CPROVER_old(g_sw_started) && g_sw_iv == __CPROVER_old(g_sw_iv)))
+__CPROVER_ensures((SHAS_SEL && __CPROVER_old(hash->bytes) <= g_swpos && g_swpos - __CPROVER_old(hash->bytes) < len)
+    ? (g_sw_hit == __CPROVER_old(g_sw_hit) + 1 && g_sw_byte == data[g_swpos - __CPROVER_old(hash->bytes)])
+    : (g_sw_hit == __CPROVER_old(g_sw_hit) && g_sw_byte == __CPROVER_old(g_sw_byte)))
+;
+#define SHAS_FSLOT(i) \
+  __CPROVER_ensures(__CPROVER_old(g_sfin_n) == i \
+    ? (g_sf_obj##i == SHAS_ID(hash) && g_sf_end##i == __CPROVER_old(hash->bytes) && g_sf_byte##i == out32[g_sdk]) \
+    : (g_sf_obj##i == __CPROVER_old(g_sf_obj##i) && g_sf_end##i == __CPROVER_old(g_sf_end##i) && g_sf_byte##i == __CPROVER_old(g_sf_byte##i)))
+static void secp256k1_sha256_finalize(const secp256k1_hash_ctx *hash_ctx, secp256k1_sha256 *hash, unsigned char *out32)
+__CPROVER_requires(__CPROVER_rw_ok(hash, sizeof(*hash)) && __CPROVER_w_ok(out32, 32) && hash_ctx != NULL)
+__CPROVER_requires(hash->bytes < ((uint64_t)1 << 61) && g_sdk < 32 && g_sfin_n >= 0 && g_sfin_n < 1000)
+__CPROVER_assigns(*hash, __CPROVER_object_upto(out32, 32), g_sfin_n, g_sf_obj0, g_sf_obj1, g_sf_obj2, g_sf_obj3, g_sf_end0, g_sf_end1, g_sf_end2, g_sf_end3, g_sf_byte0, g_sf_byte1, g_sf_byte2, g_sf_byte3)
+__CPROVER_ensures(g_sfin_n == __CPROVER_old(g_sfin_n) + 1)
+SHAS_FSLOT(0) SHAS_FSLOT(1) SHAS_FSLOT(2) SHAS_FSLOT(3)
 ;
 #endif
 
